@@ -265,3 +265,212 @@ def gen_sensor(rng, idx, big=False):
 
 
 FAMILIES.update({'rm': gen_rm, 'maint': gen_maint, 'sched': gen_sched, 'sensor': gen_sensor})
+
+
+# --------------------------------------------------------------------------------------- floor
+class FloorBuilder:
+    def __init__(self, rng):
+        self.rng = rng
+        self.L = []
+        self.ndev = 0
+        self.kinds = []          # kind per device index
+        self.nassets = 0
+
+    def dev(self, kind, **kw):
+        toks = ['asset', 'dev', kind] + [f'{k}={v}' for k, v in kw.items() if v is not None]
+        self.L.append(toks)
+        self.kinds.append(kind)
+        self.ndev += 1
+        self.nassets += 1
+        return self.ndev - 1
+
+    def group(self, gid, devs, ins=None, outs=None):
+        self.L.append(['asset', 'group', str(gid), 'devs=' + ','.join(map(str, devs)),
+                       'in=' + (','.join(map(str, ins)) if ins else '-'),
+                       'out=' + (','.join(map(str, outs)) if outs else '-')])
+        self.kinds += ['ginput', 'goutput']
+        self.ndev += 2
+        self.nassets += 2
+
+
+def _cb(rng):
+    c = rng.choice(['-', '-', '-', '4', '12'])
+    o = rng.choice([0, 0, 0, 2, -3, 8])
+    v = rng.choice([0, 0, 1, 5])
+    q = rng.choice(['-', '-', '0', '2'])
+    return f'{c}:{o}:{v}:{q}'
+
+
+def gen_floor(rng, idx, big=False, groups=True, congested=False, serial=False):
+    """Random well-posed line: sources -> stages of handlers / processors / buffers / batchers (behind
+    gates, inside shared groups) -> sinks; fan-in/fan-out; zero and positive cycle times; capacities;
+    batches; resource pools; scripted failures, work orders, shutdown/restore, input blocking,
+    capacity and budget changes, cycle-time changes, callbacks; one to three runs."""
+    B = FloorBuilder(rng)
+    L = [['scenario', str(idx)], ['seed', str(rng.randrange(1000)), str(rng.choice(WMODS))]]
+    if rng.random() < 0.5:
+        L.append(['idoff', str(rng.randrange(50))])
+    npools = rng.choice([0, 0, 1, 1, 2])
+    for r in range(npools):
+        L.append(['res', str(r), str(rng.choice([0, 1, 1, 2, 3]))])
+    cyc_choices = [0, 0, 2, 4, 4, 8, 8, 12, 16] if not congested else [0, 4, 8, 8, 16, 16, 24]
+    batches = (rng.random() < 0.25) and not serial
+
+    def mk_source():
+        budget = rng.choice(['inf', 'inf', 'def', '1', '3', '6', '12'])
+        cyc = rng.choice([2, 4, 4, 8, 8, 16]) if budget in ('inf', 'def') else rng.choice([0, 0, 2, 4, 8])
+        return B.dev('source', cyc=cyc, budget=budget, pval=rng.choice([0, 0, 5, 7]), pqual=rng.choice([1, 1, 3]),
+                     batchof=(rng.choice([0, 0, 2, 3, -1]) if batches else 0))
+
+    prev = [mk_source() for _ in range(1 if serial else rng.choice([1, 1, 2]))]
+    procs = []
+    gid = 0
+    nst = rng.randint(1, 4 if not big else 6)
+    outside = list(prev)       # devices not in any group (valid upstreams for outside devices)
+    for st in range(nst):
+        cur = []
+        use_group = groups and not serial and not batches and rng.random() < 0.25
+        if use_group:
+            # members (connected only among themselves), then the group, then paths
+            n_m = rng.choice([1, 1, 2])
+            members = []
+            for j in range(n_m):
+                kind = rng.choice(['processor', 'handler', 'processor'])
+                kw = dict(cyc=rng.choice(cyc_choices), up=(','.join(map(str, members[-1:])) if members else None))
+                if kind == 'processor':
+                    kw.update(nshut=rng.choice([0, 1]), nrest=rng.choice([0, 1]))
+                    if npools and rng.random() < 0.4:
+                        kw['res'] = ';'.join(f'{r}:{rng.choice([1, 1, 2])}' for r in rng.sample(range(npools), rng.randint(1, npools)))
+                m = B.dev(kind, **kw)
+                members.append(m)
+                if kind == 'processor':
+                    procs.append(m)
+            B.group(gid, members)
+            npaths = rng.choice([1, 2, 2, 3])
+            for pi in range(npaths):
+                ups = rng.sample(prev, rng.randint(1, len(prev)))
+                if pi > 0 and cur and B.kinds[cur[-1]] != 'gpath' and rng.random() < 0.3:
+                    # re-entrant: this path is fed by a device placed after an earlier path
+                    ups = [cur[-1]]
+                p = B.dev('gpath', group=gid, up=','.join(map(str, ups)))
+                if rng.random() < 0.6:
+                    k2 = rng.choice(['handler', 'buffer', 'processor'])
+                    kw = dict(up=str(p))
+                    if k2 == 'buffer':
+                        kw.update(cap=rng.choice(['inf', 'def', '1', '2', '3']), delay=rng.choice([0, 0, 4, 8]))
+                    else:
+                        kw.update(cyc=rng.choice(cyc_choices))
+                    d = B.dev(k2, **kw)
+                    if k2 == 'processor':
+                        procs.append(d)
+                    cur.append(d)
+                else:
+                    cur.append(p)
+            gid += 1
+        else:
+            for j in range(1 if serial else rng.choice([1, 1, 2, 3])):
+                ups = rng.sample(prev, rng.randint(1, len(prev)))
+                if not serial and rng.random() < 0.25:
+                    # a decision gate in front, sometimes a complementary pair feeding two devices
+                    pred = rng.choice(['always', 'qge:2', 'qlt:2', 'vge:6', 'vlt:6', 'never'])
+                    g = B.dev('gate', up=','.join(map(str, ups)), pred=pred)
+                    ups = [g]
+                kind = rng.choice(['handler', 'processor', 'processor', 'buffer', 'buffer'] +
+                                  (['batcher', 'batcher'] if batches or (not serial and rng.random() < 0.15) else []))
+                kw = dict(up=','.join(map(str, ups)))
+                if kind in ('handler', 'processor'):
+                    kw['cyc'] = rng.choice(cyc_choices)
+                    if not serial and rng.random() < 0.25:
+                        kw['recvcb'] = ','.join(_cb(rng) for _ in range(rng.choice([1, 1, 2])))
+                if kind == 'processor':
+                    kw.update(nshut=rng.choice([0, 1, 2]), nrest=rng.choice([0, 1]))
+                    if npools and rng.random() < (0.7 if congested else 0.4):
+                        kw['res'] = ';'.join(f'{r}:{rng.choice([0, 1, 1, 2])}' for r in rng.sample(range(npools), rng.randint(1, npools)))
+                    if not serial and rng.random() < 0.2:
+                        kw['fincb'] = _cb(rng)
+                if kind == 'buffer':
+                    kw.update(cap=rng.choice(['inf', 'def', '1', '1', '2', '3', '5']), delay=rng.choice([0, 0, 0, 4, 8, 20]))
+                if kind == 'batcher':
+                    kw['bsz'] = rng.choice(['-', '-', '2', '3', '4'])
+                d = B.dev(kind, **kw)
+                if kind == 'processor':
+                    procs.append(d)
+                cur.append(d)
+        prev = cur
+    for j in range(1 if serial else rng.choice([1, 1, 2])):
+        ups = prev if j == 0 else rng.sample(prev, rng.randint(1, len(prev)))
+        B.dev('sink', up=','.join(map(str, ups)), cyc=rng.choice([0, 0, 0, 4, 8] if not congested else [0, 8, 16, 24]),
+              collect=rng.choice([0, 1]))
+    L += B.L
+    # maintainer + targets (processors with default hooks)
+    nm = 0
+    ntg = 0
+    if procs and not serial and rng.random() < 0.6:
+        nm = 1
+        L.append(['asset', 'maint', 'cap=' + rng.choice(['inf', 'def', '1', '2']), 'value=' + str(rng.choice([0, 50]))])
+        for d in procs[:4]:
+            params = ','.join(f'{tag}:{rng.choice([0, 4, 8, 16, 24])}:{rng.choice([0, 1, 1, 2])}:{rng.choice([0, 0, 3])}'
+                              for tag in range(2))
+            L.append(['target', str(ntg), f'dev={d}', 'start=-', 'end=-', f'params={params}'])
+            ntg += 1
+    if procs and not serial and rng.random() < 0.25:
+        L.append(['asset', 'sensor', 'out', f'proc={rng.choice(procs)}', 'n=' + rng.choice(['def', '0', '1', '2']),
+                  'cap=' + rng.choice(['def', '2', '3']), 'attrs=' + rng.choice(['0', '1', '0,1']), 'cbs=' + str(rng.choice([0, 1]))])
+    # scripts
+    ops = []
+    handlerlike = [i for i, k in enumerate(B.kinds) if k in ('handler', 'processor', 'buffer', 'batcher', 'sink')]
+    sources = [i for i, k in enumerate(B.kinds) if k == 'source']
+    anydev = list(range(B.ndev))
+    if not serial:
+        for _ in range(rng.randint(0, 10 if not big else 20)):
+            c = rng.random()
+            if procs and c < 0.22:
+                ops.append(['schedfailrel', str(rng.choice(procs)), str(rng.choice([0, 0, 1, 4]))])
+            elif procs and c < 0.32:
+                ops.append(['shutdown', str(rng.choice(procs))])
+            elif procs and c < 0.47:
+                ops.append(['restore', str(rng.choice(procs))])
+            elif nm and c < 0.62:
+                ops.append(['wo', '0', str(rng.randrange(ntg)), str(rng.randrange(2)), '0'])
+            elif c < 0.74:
+                ops.append(['block', str(rng.choice(anydev)), rng.choice(['0', '1', '1'])])
+            elif npools and c < 0.84:
+                ops.append(['addres', str(rng.randrange(npools)), str(rng.choice([-2, -1, -1, 1, 1, 2]))])
+            elif c < 0.90:
+                ops.append(['adjust', str(rng.choice(sources)), str(rng.choice([-2, 1, 2, 5]))])
+            elif c < 0.95 and handlerlike:
+                d = rng.choice(handlerlike)
+                if B.kinds[d] in ('handler', 'processor', 'sink'):
+                    ops.append(['setcycle', str(d), str(rng.choice([0, 4, 8, 20]))])
+                else:
+                    ops.append(['offset', str(d), '0'])
+            elif handlerlike:
+                d = rng.choice([x for x in handlerlike if B.kinds[x] in ('handler', 'processor', 'sink')] or handlerlike)
+                ops.append(['offset', str(d), str(rng.choice([-4, 2, 8]))])
+    # every op becomes a script of its own, scheduled at a random time (several at the same instant)
+    times = [0, 4, 8, 8, 12, 16, 16, 20, 24, 32, 32, 40, 48, 56, 64, 80]
+    for k, op in enumerate(ops):
+        L.append(['script', str(k)] + op)
+    # unblock / restore towards the end so that lines drain (still arbitrary)
+    for k, op in enumerate(ops):
+        L.append(['ext', 'sched', str(rng.choice(times)), '-2', str(k), str(pick_prio(rng))])
+    horizon = rng.choice([48, 64, 96, 128]) if not big else rng.choice([128, 200])
+    if rng.random() < 0.3:
+        a = rng.choice([8, 16, 20, 33])
+        L.append(['run', str(a)])
+        L.append(['run', str(horizon - a if horizon > a else 8)])
+    else:
+        L.append(['run', str(horizon)])
+    L.append(['end'])
+    return L
+
+
+def gen_floor_congested(rng, idx, big=False):
+    return gen_floor(rng, idx, big, congested=True)
+
+
+def gen_serial(rng, idx, big=False):
+    return gen_floor(rng, idx, big, groups=False, serial=True)
+
+
+FAMILIES.update({'floor': gen_floor, 'floorc': gen_floor_congested, 'serial': gen_serial})
